@@ -35,6 +35,7 @@ theorem sigs_getElem? (s : St) (m : ModId) : s.sigs[m]? = (s.mods[m]?).map Mod.s
 @[simp] theorem emit_sigs (s : St) (o) : (s.emit o).sigs = s.sigs := rfl
 @[simp] theorem emit_srcs (s : St) (o) : (s.emit o).srcs = s.srcs := rfl
 @[simp] theorem emit_deadCtx (s : St) (o) : (s.emit o).deadCtx = s.deadCtx := rfl
+@[simp] theorem emit_nextCtx (s : St) (o) : (s.emit o).nextCtx = s.nextCtx := rfl
 
 /-! ### module updates that keep the signature -/
 theorem updMod_sigs (s : St) (m : ModId) (f : Mod → Mod) (hf : ∀ md, (f md).sig = md.sig) :
@@ -62,6 +63,8 @@ theorem updMod_sigs (s : St) (m : ModId) (f : Mod → Mod) (hf : ∀ md, (f md).
   unfold St.updMod; split <;> rfl
 @[simp] theorem updMod_srcs (s : St) (m) (f) : (s.updMod m f).srcs = s.srcs := by
   unfold St.updMod; split <;> rfl
+@[simp] theorem updMod_nextCtx (s : St) (m) (f) : (s.updMod m f).nextCtx = s.nextCtx := by
+  unfold St.updMod; split <;> rfl
 @[simp] theorem updMod_length (s : St) (m) (f) : (s.updMod m f).mods.length = s.mods.length := by
   unfold St.updMod; split <;> simp
 
@@ -73,6 +76,8 @@ theorem updMod_sigs (s : St) (m : ModId) (f : Mod → Mod) (hf : ∀ md, (f md).
   unfold St.updSrc; split <;> rfl
 @[simp] theorem updSrc_deadCtx (s : St) (i) (f) : (s.updSrc i f).deadCtx = s.deadCtx := by
   unfold St.updSrc; split <;> rfl
+@[simp] theorem updSrc_nextCtx (s : St) (i) (f) : (s.updSrc i f).nextCtx = s.nextCtx := by
+  unfold St.updSrc; split <;> rfl
 @[simp] theorem updSrc_sigs (s : St) (i) (f) : (s.updSrc i f).sigs = s.sigs := by
   unfold St.sigs; simp
 
@@ -82,40 +87,42 @@ structure Quiet (g : St → St) : Prop where
   ctx : ∀ s, (g s).ctx = s.ctx
   trans : ∀ s, (g s).trans = s.trans
   dead : ∀ s, (g s).deadCtx = s.deadCtx
+  next : ∀ s, (g s).nextCtx = s.nextCtx
 
 theorem Quiet.comp {g h : St → St} (hg : Quiet g) (hh : Quiet h) : Quiet (fun s => g (h s)) :=
   ⟨fun s => by rw [hg.sigs, hh.sigs], fun s => by rw [hg.ctx, hh.ctx], fun s => by rw [hg.trans, hh.trans],
-   fun s => by rw [hg.dead, hh.dead]⟩
+   fun s => by rw [hg.dead, hh.dead], fun s => by rw [hg.next, hh.next]⟩
 
-theorem Quiet.id : Quiet (fun s => s) := ⟨fun _ => rfl, fun _ => rfl, fun _ => rfl, fun _ => rfl⟩
+theorem Quiet.id : Quiet (fun s => s) := ⟨fun _ => rfl, fun _ => rfl, fun _ => rfl, fun _ => rfl, fun _ => rfl⟩
 
 theorem Quiet.foldl {α} (g : St → α → St) (hg : ∀ a, Quiet (fun s => g s a)) (l : List α) :
     Quiet (fun s => l.foldl g s) := by
   induction l with
   | nil => exact Quiet.id
   | cons a l ih =>
-    refine ⟨fun s => ?_, fun s => ?_, fun s => ?_, fun s => ?_⟩
+    refine ⟨fun s => ?_, fun s => ?_, fun s => ?_, fun s => ?_, fun s => ?_⟩
     · simp only [List.foldl_cons]; rw [ih.sigs, (hg a).sigs]
     · simp only [List.foldl_cons]; rw [ih.ctx, (hg a).ctx]
     · simp only [List.foldl_cons]; rw [ih.trans, (hg a).trans]
     · simp only [List.foldl_cons]; rw [ih.dead, (hg a).dead]
+    · simp only [List.foldl_cons]; rw [ih.next, (hg a).next]
 
-theorem quiet_emit (o : Out) : Quiet (fun s => s.emit o) := ⟨fun _ => rfl, fun _ => rfl, fun _ => rfl, fun _ => rfl⟩
+theorem quiet_emit (o : Out) : Quiet (fun s => s.emit o) := ⟨fun _ => rfl, fun _ => rfl, fun _ => rfl, fun _ => rfl, fun _ => rfl⟩
 
 theorem quiet_updMod (m : ModId) (f : Mod → Mod) (hf : ∀ md, (f md).sig = md.sig) : Quiet (fun s => s.updMod m f) :=
-  ⟨fun s => updMod_sigs s m f hf, fun s => by simp, fun s => by simp, fun s => by simp⟩
+  ⟨fun s => updMod_sigs s m f hf, fun s => by simp, fun s => by simp, fun s => by simp, fun s => by simp⟩
 
 theorem quiet_updSrc (i : SrcId) (f : Src → Src) : Quiet (fun s => s.updSrc i f) :=
-  ⟨fun s => by simp, fun s => by simp, fun s => by simp, fun s => by simp⟩
+  ⟨fun s => by simp, fun s => by simp, fun s => by simp, fun s => by simp, fun s => by simp⟩
 
 theorem quiet_holderRef (h) : Quiet (fun s => holderRef s h) := by
-  refine ⟨fun s => ?_, fun s => ?_, fun s => ?_, fun s => ?_⟩ <;>
+  refine ⟨fun s => ?_, fun s => ?_, fun s => ?_, fun s => ?_, fun s => ?_⟩ <;>
   · unfold holderRef; split
     · rfl
     · split <;> rfl
 
 theorem quiet_holderUnref (h) : Quiet (fun s => holderUnref s h) := by
-  refine ⟨fun s => ?_, fun s => ?_, fun s => ?_, fun s => ?_⟩ <;>
+  refine ⟨fun s => ?_, fun s => ?_, fun s => ?_, fun s => ?_, fun s => ?_⟩ <;>
   · unfold holderUnref; split
     · rfl
     · split
@@ -138,36 +145,31 @@ theorem quiet_destroyEvts (evts keep) : Quiet (fun s => destroyEvts s evts keep)
   · simp only [h, if_true]; exact Quiet.id
   · simp only [h]; exact quiet_destroyEvt e
 
-theorem quiet_tellIf (msg key r) : Quiet (fun s => tellIf s msg key r) := by
-  refine ⟨fun s => ?_, fun s => ?_, fun s => ?_, fun s => ?_⟩ <;>
-  · unfold tellIf
-    split
-    · rfl
-    · split
-      · simp only
-        split
-        · split
-          · first
-              | (rw [updMod_sigs _ _ _ (by intro md; rfl)]; exact (quiet_holderRef _).sigs s)
-              | (simp; first | exact (quiet_holderRef _).ctx s | exact (quiet_holderRef _).trans s | exact (quiet_holderRef _).dead s)
-          · first
-              | (rw [(quiet_destroyMsg _).sigs]; exact (quiet_holderRef _).sigs s)
-              | (rw [(quiet_destroyMsg _).ctx]; exact (quiet_holderRef _).ctx s)
-              | (rw [(quiet_destroyMsg _).trans]; exact (quiet_holderRef _).trans s)
-              | (rw [(quiet_destroyMsg _).dead]; exact (quiet_holderRef _).dead s)
-        · first
-            | (rw [(quiet_destroyMsg _).sigs]; exact (quiet_holderRef _).sigs s)
-            | (rw [(quiet_destroyMsg _).ctx]; exact (quiet_holderRef _).ctx s)
-            | (rw [(quiet_destroyMsg _).trans]; exact (quiet_holderRef _).trans s)
-            | (rw [(quiet_destroyMsg _).dead]; exact (quiet_holderRef _).dead s)
-      · rfl
-
-
-theorem Quiet.pointwise' (g : St → St) (h : ∀ s, ∃ g', Quiet g' ∧ g s = g' s) : Quiet g := by
-  refine ⟨fun s => ?_, fun s => ?_, fun s => ?_, fun s => ?_⟩ <;>
+theorem Quiet.pointwise0 (g : St → St) (h : ∀ s, ∃ g', Quiet g' ∧ g s = g' s) : Quiet g := by
+  refine ⟨fun s => ?_, fun s => ?_, fun s => ?_, fun s => ?_, fun s => ?_⟩ <;>
   · obtain ⟨g', hq, he⟩ := h s
     rw [he]
-    first | exact hq.sigs s | exact hq.ctx s | exact hq.trans s | exact hq.dead s
+    first | exact hq.sigs s | exact hq.ctx s | exact hq.trans s | exact hq.dead s | exact hq.next s
+
+theorem quiet_tellIf (msg key r) : Quiet (fun s => tellIf s msg key r) := by
+  apply Quiet.pointwise0
+  intro s
+  unfold tellIf
+  split
+  · exact ⟨_, Quiet.id, rfl⟩
+  · rename_i md _
+    split
+    · simp only
+      split
+      · rename_i q _
+        split
+        · exact ⟨fun s0 => (holderRef s0 msg.holder).updMod r (fun md => { md with pipe := some (q ++ [{ msg with sub := (match key with | .sub i => some i | _ => none) }]) }),
+            Quiet.comp (quiet_updMod r (fun md => { md with pipe := some (q ++ [{ msg with sub := (match key with | .sub i => some i | _ => none) }]) }) (fun md => rfl)) (quiet_holderRef _), rfl⟩
+        · exact ⟨_, Quiet.comp (quiet_destroyMsg _) (quiet_holderRef _), rfl⟩
+      · exact ⟨_, Quiet.comp (quiet_destroyMsg _) (quiet_holderRef _), rfl⟩
+    · exact ⟨_, Quiet.id, rfl⟩
+
+theorem Quiet.pointwise' (g : St → St) (h : ∀ s, ∃ g', Quiet g' ∧ g s = g' s) : Quiet g := Quiet.pointwise0 g h
 
 theorem Quiet.ite (c : Prop) [Decidable c] {g h : St → St} (hg : Quiet g) (hh : Quiet h) :
     Quiet (fun s => if c then g s else h s) := by
@@ -183,11 +185,9 @@ theorem quiet_tellPubsub (msg recipient) : Quiet (fun s => tellPubsub s msg reci
     cases msg.topic with
     | none =>
       -- the list folded over depends on the state, but every step is quiet
-      refine ⟨fun s => ?_, fun s => ?_, fun s => ?_, fun s => ?_⟩
-      · exact (Quiet.foldl (fun s r => tellIf s msg .bcast r) (fun r => quiet_tellIf msg .bcast r) s.tableOrder).sigs s
-      · exact (Quiet.foldl (fun s r => tellIf s msg .bcast r) (fun r => quiet_tellIf msg .bcast r) s.tableOrder).ctx s
-      · exact (Quiet.foldl (fun s r => tellIf s msg .bcast r) (fun r => quiet_tellIf msg .bcast r) s.tableOrder).trans s
-      · exact (Quiet.foldl (fun s r => tellIf s msg .bcast r) (fun r => quiet_tellIf msg .bcast r) s.tableOrder).dead s
+      apply Quiet.pointwise0
+      intro s
+      exact ⟨_, Quiet.foldl (fun s r => tellIf s msg .bcast r) (fun r => quiet_tellIf msg .bcast r) s.tableOrder, rfl⟩
     | some t =>
       have step : ∀ r, Quiet (fun s =>
           match s.mods[r]? with
@@ -208,11 +208,9 @@ theorem quiet_tellPubsub (msg recipient) : Quiet (fun s => tellPubsub s msg reci
             · exact ⟨_, Quiet.id, rfl⟩
           · exact ⟨_, Quiet.id, rfl⟩
         · exact ⟨_, Quiet.id, rfl⟩
-      refine ⟨fun s => ?_, fun s => ?_, fun s => ?_, fun s => ?_⟩
-      · exact (Quiet.foldl _ step s.tableOrder).sigs s
-      · exact (Quiet.foldl _ step s.tableOrder).ctx s
-      · exact (Quiet.foldl _ step s.tableOrder).trans s
-      · exact (Quiet.foldl _ step s.tableOrder).dead s
+      apply Quiet.pointwise0
+      intro s
+      exact ⟨_, Quiet.foldl _ step s.tableOrder, rfl⟩
 
 theorem quiet_tellSystem (recipient sender topic pill) : Quiet (fun s => tellSystem s recipient sender topic pill) := by
   unfold tellSystem
@@ -221,47 +219,60 @@ theorem quiet_tellSystem (recipient sender topic pill) : Quiet (fun s => tellSys
   | some m =>
     exact Quiet.comp (quiet_tellPubsub _ _) (quiet_updMod m _ (fun md => rfl))
 
-theorem quiet_newHolder (p) : Quiet (fun s => newHolder s p) := ⟨fun _ => rfl, fun _ => rfl, fun _ => rfl, fun _ => rfl⟩
+theorem quiet_newHolder (p) : Quiet (fun s => newHolder s p) := ⟨fun _ => rfl, fun _ => rfl, fun _ => rfl, fun _ => rfl, fun _ => rfl⟩
 
 @[simp] theorem holderRef_sigs (s : St) (h) : (holderRef s h).sigs = s.sigs := (quiet_holderRef h).sigs s
 @[simp] theorem holderRef_ctx (s : St) (h) : (holderRef s h).ctx = s.ctx := (quiet_holderRef h).ctx s
 @[simp] theorem holderRef_trans (s : St) (h) : (holderRef s h).trans = s.trans := (quiet_holderRef h).trans s
 @[simp] theorem holderRef_deadCtx (s : St) (h) : (holderRef s h).deadCtx = s.deadCtx := (quiet_holderRef h).dead s
+@[simp] theorem holderRef_nextCtx (s : St) (h) : (holderRef s h).nextCtx = s.nextCtx := (quiet_holderRef h).next s
 @[simp] theorem holderUnref_sigs (s : St) (h) : (holderUnref s h).sigs = s.sigs := (quiet_holderUnref h).sigs s
 @[simp] theorem holderUnref_ctx (s : St) (h) : (holderUnref s h).ctx = s.ctx := (quiet_holderUnref h).ctx s
 @[simp] theorem holderUnref_trans (s : St) (h) : (holderUnref s h).trans = s.trans := (quiet_holderUnref h).trans s
 @[simp] theorem holderUnref_deadCtx (s : St) (h) : (holderUnref s h).deadCtx = s.deadCtx := (quiet_holderUnref h).dead s
+@[simp] theorem holderUnref_nextCtx (s : St) (h) : (holderUnref s h).nextCtx = s.nextCtx := (quiet_holderUnref h).next s
 @[simp] theorem destroyMsg_sigs (s : St) (msg) : (destroyMsg s msg).sigs = s.sigs := (quiet_destroyMsg msg).sigs s
 @[simp] theorem destroyMsg_ctx (s : St) (msg) : (destroyMsg s msg).ctx = s.ctx := (quiet_destroyMsg msg).ctx s
 @[simp] theorem destroyMsg_trans (s : St) (msg) : (destroyMsg s msg).trans = s.trans := (quiet_destroyMsg msg).trans s
 @[simp] theorem destroyMsg_deadCtx (s : St) (msg) : (destroyMsg s msg).deadCtx = s.deadCtx := (quiet_destroyMsg msg).dead s
+@[simp] theorem destroyMsg_nextCtx (s : St) (msg) : (destroyMsg s msg).nextCtx = s.nextCtx := (quiet_destroyMsg msg).next s
 @[simp] theorem tellIf_sigs (s : St) (msg) (key) (r) : (tellIf s msg key r).sigs = s.sigs := (quiet_tellIf msg key r).sigs s
 @[simp] theorem tellIf_ctx (s : St) (msg) (key) (r) : (tellIf s msg key r).ctx = s.ctx := (quiet_tellIf msg key r).ctx s
 @[simp] theorem tellIf_trans (s : St) (msg) (key) (r) : (tellIf s msg key r).trans = s.trans := (quiet_tellIf msg key r).trans s
 @[simp] theorem tellIf_deadCtx (s : St) (msg) (key) (r) : (tellIf s msg key r).deadCtx = s.deadCtx := (quiet_tellIf msg key r).dead s
+@[simp] theorem tellIf_nextCtx (s : St) (msg) (key) (r) : (tellIf s msg key r).nextCtx = s.nextCtx := (quiet_tellIf msg key r).next s
 @[simp] theorem tellPubsub_sigs (s : St) (msg) (r) : (tellPubsub s msg r).sigs = s.sigs := (quiet_tellPubsub msg r).sigs s
 @[simp] theorem tellPubsub_ctx (s : St) (msg) (r) : (tellPubsub s msg r).ctx = s.ctx := (quiet_tellPubsub msg r).ctx s
 @[simp] theorem tellPubsub_trans (s : St) (msg) (r) : (tellPubsub s msg r).trans = s.trans := (quiet_tellPubsub msg r).trans s
 @[simp] theorem tellPubsub_deadCtx (s : St) (msg) (r) : (tellPubsub s msg r).deadCtx = s.deadCtx := (quiet_tellPubsub msg r).dead s
+@[simp] theorem tellPubsub_nextCtx (s : St) (msg) (r) : (tellPubsub s msg r).nextCtx = s.nextCtx := (quiet_tellPubsub msg r).next s
 @[simp] theorem tellSystem_sigs (s : St) (r) (sd) (t) (p) : (tellSystem s r sd t p).sigs = s.sigs := (quiet_tellSystem r sd t p).sigs s
 @[simp] theorem tellSystem_ctx (s : St) (r) (sd) (t) (p) : (tellSystem s r sd t p).ctx = s.ctx := (quiet_tellSystem r sd t p).ctx s
 @[simp] theorem tellSystem_trans (s : St) (r) (sd) (t) (p) : (tellSystem s r sd t p).trans = s.trans := (quiet_tellSystem r sd t p).trans s
 @[simp] theorem tellSystem_deadCtx (s : St) (r) (sd) (t) (p) : (tellSystem s r sd t p).deadCtx = s.deadCtx := (quiet_tellSystem r sd t p).dead s
+@[simp] theorem tellSystem_nextCtx (s : St) (r) (sd) (t) (p) : (tellSystem s r sd t p).nextCtx = s.nextCtx := (quiet_tellSystem r sd t p).next s
 @[simp] theorem newHolder_sigs (s : St) (p) : (newHolder s p).sigs = s.sigs := (quiet_newHolder p).sigs s
 @[simp] theorem newHolder_ctx (s : St) (p) : (newHolder s p).ctx = s.ctx := (quiet_newHolder p).ctx s
 @[simp] theorem newHolder_trans (s : St) (p) : (newHolder s p).trans = s.trans := (quiet_newHolder p).trans s
 @[simp] theorem newHolder_deadCtx (s : St) (p) : (newHolder s p).deadCtx = s.deadCtx := (quiet_newHolder p).dead s
+@[simp] theorem newHolder_nextCtx (s : St) (p) : (newHolder s p).nextCtx = s.nextCtx := (quiet_newHolder p).next s
 
 theorem quiet_sendMsg (m recipient topic payload af) : Quiet (fun s => sendMsg s m recipient topic payload af) := by
-  refine ⟨fun s => ?_, fun s => ?_, fun s => ?_, fun s => ?_⟩ <;>
-  · unfold sendMsg
-    by_cases h : af
-    · simp only [h, if_true, holderUnref_sigs, tellPubsub_sigs, newHolder_sigs, holderUnref_ctx, tellPubsub_ctx, newHolder_ctx,
-        holderUnref_trans, tellPubsub_trans, newHolder_trans, holderUnref_deadCtx, tellPubsub_deadCtx, newHolder_deadCtx,
-        updMod_ctx, updMod_trans, updMod_deadCtx]
-      try exact updMod_sigs s m _ (fun md => rfl)
-    · simp only [h, Bool.false_eq_true, if_false, tellPubsub_sigs, tellPubsub_ctx, tellPubsub_trans, tellPubsub_deadCtx, updMod_ctx, updMod_trans, updMod_deadCtx]
-      try exact updMod_sigs s m _ (fun md => rfl)
+  apply Quiet.pointwise0
+  intro s
+  unfold sendMsg
+  by_cases h : af
+  · simp only [h, if_true]
+    exact ⟨fun s0 => holderUnref (tellPubsub (newHolder (s0.updMod m fun md => { md with sent := md.sent + 1 }) payload)
+        { sender := some m, topic := topic, payload := payload, sys := false,
+          holder := some (s.updMod m fun md => { md with sent := md.sent + 1 }).holders.length, sub := none } recipient)
+        (some (s.updMod m fun md => { md with sent := md.sent + 1 }).holders.length),
+      Quiet.comp (quiet_holderUnref _) (Quiet.comp (quiet_tellPubsub _ _) (Quiet.comp (quiet_newHolder payload)
+        (quiet_updMod m (fun md => { md with sent := md.sent + 1 }) (fun md => rfl)))), rfl⟩
+  · simp only [h, Bool.false_eq_true, if_false]
+    exact ⟨fun s0 => tellPubsub (s0.updMod m fun md => { md with sent := md.sent + 1 })
+        { sender := some m, topic := topic, payload := payload, sys := false, holder := none, sub := none } recipient,
+      Quiet.comp (quiet_tellPubsub _ _) (quiet_updMod m (fun md => { md with sent := md.sent + 1 }) (fun md => rfl)), rfl⟩
 
 theorem quiet_destroySrc (i) : Quiet (fun s => destroySrc s i) := by
   apply Quiet.pointwise'
@@ -338,33 +349,41 @@ theorem quiet_resetModule (m) : Quiet (fun s => resetModule s m) := by
 @[simp] theorem sendMsg_ctx (s : St) (m) (r) (t) (p) (af) : (sendMsg s m r t p af).ctx = s.ctx := (quiet_sendMsg m r t p af).ctx s
 @[simp] theorem sendMsg_trans (s : St) (m) (r) (t) (p) (af) : (sendMsg s m r t p af).trans = s.trans := (quiet_sendMsg m r t p af).trans s
 @[simp] theorem sendMsg_deadCtx (s : St) (m) (r) (t) (p) (af) : (sendMsg s m r t p af).deadCtx = s.deadCtx := (quiet_sendMsg m r t p af).dead s
+@[simp] theorem sendMsg_nextCtx (s : St) (m) (r) (t) (p) (af) : (sendMsg s m r t p af).nextCtx = s.nextCtx := (quiet_sendMsg m r t p af).next s
 @[simp] theorem destroySrc_sigs (s : St) (i) : (destroySrc s i).sigs = s.sigs := (quiet_destroySrc i).sigs s
 @[simp] theorem destroySrc_ctx (s : St) (i) : (destroySrc s i).ctx = s.ctx := (quiet_destroySrc i).ctx s
 @[simp] theorem destroySrc_trans (s : St) (i) : (destroySrc s i).trans = s.trans := (quiet_destroySrc i).trans s
 @[simp] theorem destroySrc_deadCtx (s : St) (i) : (destroySrc s i).deadCtx = s.deadCtx := (quiet_destroySrc i).dead s
+@[simp] theorem destroySrc_nextCtx (s : St) (i) : (destroySrc s i).nextCtx = s.nextCtx := (quiet_destroySrc i).next s
 @[simp] theorem removeSrc_sigs (s : St) (m) (i) : (removeSrc s m i).sigs = s.sigs := (quiet_removeSrc m i).sigs s
 @[simp] theorem removeSrc_ctx (s : St) (m) (i) : (removeSrc s m i).ctx = s.ctx := (quiet_removeSrc m i).ctx s
 @[simp] theorem removeSrc_trans (s : St) (m) (i) : (removeSrc s m i).trans = s.trans := (quiet_removeSrc m i).trans s
 @[simp] theorem removeSrc_deadCtx (s : St) (m) (i) : (removeSrc s m i).deadCtx = s.deadCtx := (quiet_removeSrc m i).dead s
+@[simp] theorem removeSrc_nextCtx (s : St) (m) (i) : (removeSrc s m i).nextCtx = s.nextCtx := (quiet_removeSrc m i).next s
 @[simp] theorem flushDestroy_sigs (s : St) (m) : (flushDestroy s m).sigs = s.sigs := (quiet_flushDestroy m).sigs s
 @[simp] theorem flushDestroy_ctx (s : St) (m) : (flushDestroy s m).ctx = s.ctx := (quiet_flushDestroy m).ctx s
 @[simp] theorem flushDestroy_trans (s : St) (m) : (flushDestroy s m).trans = s.trans := (quiet_flushDestroy m).trans s
 @[simp] theorem flushDestroy_deadCtx (s : St) (m) : (flushDestroy s m).deadCtx = s.deadCtx := (quiet_flushDestroy m).dead s
+@[simp] theorem flushDestroy_nextCtx (s : St) (m) : (flushDestroy s m).nextCtx = s.nextCtx := (quiet_flushDestroy m).next s
 @[simp] theorem manageSrcsRm_sigs (s : St) (m) (b) : (manageSrcsRm s m b).sigs = s.sigs := (quiet_manageSrcsRm m b).sigs s
 @[simp] theorem manageSrcsRm_ctx (s : St) (m) (b) : (manageSrcsRm s m b).ctx = s.ctx := (quiet_manageSrcsRm m b).ctx s
 @[simp] theorem manageSrcsRm_trans (s : St) (m) (b) : (manageSrcsRm s m b).trans = s.trans := (quiet_manageSrcsRm m b).trans s
 @[simp] theorem manageSrcsRm_deadCtx (s : St) (m) (b) : (manageSrcsRm s m b).deadCtx = s.deadCtx := (quiet_manageSrcsRm m b).dead s
+@[simp] theorem manageSrcsRm_nextCtx (s : St) (m) (b) : (manageSrcsRm s m b).nextCtx = s.nextCtx := (quiet_manageSrcsRm m b).next s
 @[simp] theorem manageSrcsAdd_sigs (s : St) (m) : (manageSrcsAdd s m).sigs = s.sigs := (quiet_manageSrcsAdd m).sigs s
 @[simp] theorem manageSrcsAdd_ctx (s : St) (m) : (manageSrcsAdd s m).ctx = s.ctx := (quiet_manageSrcsAdd m).ctx s
 @[simp] theorem manageSrcsAdd_trans (s : St) (m) : (manageSrcsAdd s m).trans = s.trans := (quiet_manageSrcsAdd m).trans s
 @[simp] theorem manageSrcsAdd_deadCtx (s : St) (m) : (manageSrcsAdd s m).deadCtx = s.deadCtx := (quiet_manageSrcsAdd m).dead s
+@[simp] theorem manageSrcsAdd_nextCtx (s : St) (m) : (manageSrcsAdd s m).nextCtx = s.nextCtx := (quiet_manageSrcsAdd m).next s
 @[simp] theorem resetModule_sigs (s : St) (m) : (resetModule s m).sigs = s.sigs := (quiet_resetModule m).sigs s
 @[simp] theorem resetModule_ctx (s : St) (m) : (resetModule s m).ctx = s.ctx := (quiet_resetModule m).ctx s
 @[simp] theorem resetModule_trans (s : St) (m) : (resetModule s m).trans = s.trans := (quiet_resetModule m).trans s
 @[simp] theorem resetModule_deadCtx (s : St) (m) : (resetModule s m).deadCtx = s.deadCtx := (quiet_resetModule m).dead s
+@[simp] theorem resetModule_nextCtx (s : St) (m) : (resetModule s m).nextCtx = s.nextCtx := (quiet_resetModule m).next s
 @[simp] theorem destroyEvts_sigs (s : St) (e) (k) : (destroyEvts s e k).sigs = s.sigs := (quiet_destroyEvts e k).sigs s
 @[simp] theorem destroyEvts_ctx (s : St) (e) (k) : (destroyEvts s e k).ctx = s.ctx := (quiet_destroyEvts e k).ctx s
 @[simp] theorem destroyEvts_trans (s : St) (e) (k) : (destroyEvts s e k).trans = s.trans := (quiet_destroyEvts e k).trans s
 @[simp] theorem destroyEvts_deadCtx (s : St) (e) (k) : (destroyEvts s e k).deadCtx = s.deadCtx := (quiet_destroyEvts e k).dead s
+@[simp] theorem destroyEvts_nextCtx (s : St) (e) (k) : (destroyEvts s e k).nextCtx = s.nextCtx := (quiet_destroyEvts e k).next s
 
 end Lm.Core
